@@ -12,7 +12,7 @@ class Prop:
     trusted_extra = []
 
     def theorem_modules(self):
-        return {self.lean_targets[0]: self.theorems}
+        return {" ".join(self.lean_targets): self.theorems}
 
     def impl_driver(self, ctx):
         return core.build_cpp("drv_fec", ["drv_fec.cpp"], deps=["drv_fec_ops.inc", "spec.h"])
